@@ -244,7 +244,7 @@ var untrustedSpellings = []spelling{
 	{"unicode-fold-kelvin", func(h string) string { return swapFirst(h, 'k', "K") }, func(h string) bool { return isName(h) && strings.Contains(h, "k") }},
 	{"unicode-fold-long-s", func(h string) string { return swapFirst(h, 's', "ſ") }, func(h string) bool { return isName(h) && strings.Contains(h, "s") }},
 	{"unicode-fold-sub", func(h string) string { return "x." + swapFirst(h, 'k', "K") }, func(h string) bool { return isName(h) && strings.Contains(h, "k") }},
-	{"fullwidth", func(h string) string { return "ａ" + h[1:] }, isName},
+	{"fullwidth", func(h string) string { return "\uff41" + h[1:] }, isName},
 	{"nul-like-space", func(h string) string { return h + " .evil.com" }, isName},
 }
 
